@@ -13,10 +13,21 @@
      C15_keyword_prefix_document : a document that uses such identifiers in every position where the keyword is tried
                           first is well-formed and hence read back with these names as identifiers.
    The theorems per production (C15_roundtrip_<production>) are kept: they hold for any continuation of the text, not only
-   at the end of a file. *)
+   at the end of a file.
+
+   CONVERSE (parser soundness with respect to the printer) -- proved:
+     C15_accepted_is_printed : parse_file s = POk [] doc ->
+                               exists c, pr_file c [] = s /\ erase_file c = doc /\ (outside c = false -> wf_file c = true)
+       every text the parser accepts is the print of a concrete syntax tree that denotes the parsed document; the tree is
+       well-formed unless it lies in the decidable exclusion [outside] (Proofs/InvFile.v: ok_items; the list of classes is in
+       fam/idl/NOTES.md -- type names list / set / map, a result type oneway.x / throws, adjacent constant values or a
+       default / enum value / constant that ends with a number directly followed by a word, a requiredness / boolean word
+       followed by a non-ASCII letter).
+     C15_layout_free_texts   : two accepted texts are prints of trees c1, c2 with erase_file ci = di; if the trees denote
+                               the same document (same tokens modulo layout) the parsed documents are equal. *)
 From PVIdl Require Import Comb Ast Parser Print Proofs.Total Proofs.RoundTok Proofs.RoundPath Proofs.RoundAnn Proofs.RoundTy
   Proofs.RoundKit Proofs.RoundNum Proofs.RoundConst Proofs.RoundDecl Proofs.RoundItem Proofs.RoundField Proofs.RoundStruct
-  Proofs.RoundFn Proofs.RoundFile.
+  Proofs.RoundFn Proofs.RoundFile Proofs.InvTok Proofs.InvTy Proofs.InvConst Proofs.InvDecl Proofs.InvItems Proofs.InvFile.
 
 (* identifiers, followed by anything that does not continue a word *)
 Theorem C15_roundtrip_ident : forall s k,
@@ -227,3 +238,39 @@ Theorem C15_keyword_prefix_document :
   parse_file (pr_file keyword_prefix_file []) = POk [] (erase_file keyword_prefix_file).
 Proof. exact keyword_prefix_roundtrip. Qed.
 Print Assumptions C15_keyword_prefix_document.
+
+(* ---------- THE CONVERSE: every accepted text is the print of a concrete syntax tree ---------- *)
+Theorem C15_accepted_is_printed : forall s doc, parse_file s = POk [] doc ->
+  exists c : cfile, pr_file c [] = s /\ erase_file c = doc /\ (outside c = false -> wf_file c = true).
+Proof. exact accepted_is_printed. Qed.
+Print Assumptions C15_accepted_is_printed.
+
+Theorem C15_layout_free_texts : forall s1 s2 d1 d2, parse_file s1 = POk [] d1 -> parse_file s2 = POk [] d2 ->
+  exists c1 c2 : cfile, pr_file c1 [] = s1 /\ pr_file c2 [] = s2 /\ erase_file c1 = d1 /\ erase_file c2 = d2 /\
+                        (erase_file c1 = erase_file c2 -> d1 = d2).
+Proof. exact layout_free_texts. Qed.
+Print Assumptions C15_layout_free_texts.
+
+(* the same, production by production (the consumed text is the print of a tree that erases to the value; the tree is
+   well-formed under the exclusion of that production) *)
+Theorem C15_accepted_is_printed_type : forall lf d i r t, p_type lf d i = POk r t ->
+  exists c, i = pr_type c r /\ erase_type c = t /\ typeP c r.
+Proof. exact type_inv. Qed.
+Print Assumptions C15_accepted_is_printed_type.
+
+Theorem C15_accepted_is_printed_const_value : forall lf d i r v, p_const_value lf d i = POk r v ->
+  exists c, i = pr_const c r /\ erase_const c = v /\ constP c r.
+Proof. exact const_inv. Qed.
+Print Assumptions C15_accepted_is_printed_const_value.
+
+Theorem C15_accepted_is_printed_field : forall lf df i r f, p_field lf df i = POk r f ->
+  exists c, i = pr_field c r /\ erase_field c = f /\ (r <> [] -> ok_field c = true -> wf_field c = true) /\ noblank r /\
+            (cf_sep c = SepNone -> nosep r = true) /\ dhead (pr_field c r) /\
+            (field_ends_word c = true -> cf_default c = None -> nid r = true).
+Proof. exact field_inv. Qed.
+Print Assumptions C15_accepted_is_printed_field.
+
+Theorem C15_accepted_is_printed_item : forall lf df i r a, p_item lf df i = POk r a ->
+  exists it, i = pr_item it r /\ erase_item it = a /\ itemP it r.
+Proof. exact item_inv. Qed.
+Print Assumptions C15_accepted_is_printed_item.
